@@ -502,6 +502,14 @@ def _opt_truth(prog):
     return opt_truth(prog, ["result_quantification_constraint.ResultQuantificationConstraint"], 1)
 
 
+def _domain_cache(prog):
+    # a quantifier that hits its upper bound abandons the result stream in the middle: the domain value just pulled must be in the cache
+    # already, or the next evaluation counts one solution fewer
+    from .c03 import domain_cache
+
+    return domain_cache(prog)
+
+
 def run(prog: Program, tier: str) -> List[RuleResult]:
     # thorough: every cell is witnessed by all integer models up to 8 instead of 4 (same cells: the ordering domain is finite)
-    return [qc_table(prog, 9 if tier == "thorough" else 4), qc_ctor(prog), qc_path(prog), qc_map(prog), qc_errors(prog), _opt_truth(prog)]
+    return [qc_table(prog, 9 if tier == "thorough" else 4), qc_ctor(prog), qc_path(prog), qc_map(prog), qc_errors(prog), _opt_truth(prog), _domain_cache(prog)]
